@@ -103,6 +103,15 @@ def der_int(v, pad=0, neg=False):
     return b
 
 
+# name -> (which length, number of length bytes, extra leading zero content bytes | junk value of sequence length bytes)
+LAX_LEN_FORMS = {
+    "rlen82": ("r", 2, 0), "rlen83": ("r", 3, 0), "rlen84": ("r", 4, 0), "rlen87": ("r", 7, 0),
+    "slen83": ("s", 3, 0), "slen84": ("s", 4, 0), "slen8c": ("s", 12, 0),
+    "rlen84nz": ("r", 4, 260), "slen85nz": ("s", 5, 300),   # two significant length bytes after the zero length bytes
+    "seq80": ("seq", 0, 0), "seq83junk": ("seq", 3, 0xa5), "seq84": ("seq", 4, 0),
+}
+
+
 def sig_blob(k, hash_type, variant, z_fn):
     """z_fn(hash_type) -> digest integer (or None).  Returns the signature blob incl. hash type byte."""
     if variant == "empty":
@@ -151,7 +160,26 @@ def sig_blob(k, hash_type, variant, z_fn):
         seqlen += 1
     if variant == "seqlen-1":
         seqlen -= 1
-    if variant == "longlen":
+    if variant in LAX_LEN_FORMS:
+        # lax-DER length forms (only the non-strict parser reads these): long-form integer lengths with 0..n leading
+        # zero length bytes (consensus skips the zeros, then allows at most 3 significant bytes), and long-form
+        # sequence lengths whose length bytes consensus skips without interpreting them
+        which, nbytes, extra = LAX_LEN_FORMS[variant]
+        if which == "r":
+            rb = b"\0" * extra + rb       # extra leading zero content bytes (lax parsing strips them): lengths > 255
+        if which == "s":
+            sb = b"\0" * extra + sb
+
+        def lf(length):
+            tail = length.to_bytes(max(1, (length.bit_length() + 7) // 8), "big")
+            return bytes([0x80 + nbytes]) + b"\0" * (nbytes - len(tail)) + tail
+        ri = b"\x02" + (lf(len(rb)) if which == "r" else bytes([len(rb)])) + rb
+        si = b"\x02" + (lf(len(sb)) if which == "s" else bytes([len(sb)])) + sb
+        if which == "seq":
+            der = b"\x30" + bytes([0x80 + nbytes]) + bytes([extra] * nbytes) + ri + si
+        else:
+            der = b"\x30" + bytes([len(ri + si) & 0xff]) + ri + si
+    elif variant == "longlen":
         der = b"\x30\x81" + bytes([seqlen]) + body
     elif variant == "longrlen":
         der = b"\x30" + bytes([seqlen + 1]) + b"\x02\x81" + bytes([len(rb)]) + rb + b"\x02" + bytes([len(sb)]) + sb
